@@ -148,6 +148,8 @@ def _gen_lib(rng, li, k, size, shared_roles, minor):
         glob = role.endswith("global")
         # a forward declaration has no body; a full definition differs per library (conflict case keeps them distinguishable)
         t = mk_type(i, tag, ("sh%d" % j).encode(), ("Sh%d" % j).encode(), full, glob, body=full)
+        if rng.chance(1, 8):
+            t["name"] = b""      # a record with a true name and no short name is the same type all the same
         if role == "hidden":
             # what interrogate writes for a local class without published members: not fully defined, but with its bases
             t["flags"] |= F.TF_UNPUBLISHED
